@@ -1385,7 +1385,27 @@ impl G<'_> {
             2 => {
                 self.p.kinds.insert("%do-iter");
                 self.blank();
-                self.name_expr();
+                // the loop variable may be produced by a macro call / quoting function
+                if self.room() && self.r.chance(1, 4) {
+                    self.p.kinds.insert("%do-iter-call-var");
+                    match self.r.below(4) {
+                        0 => self.mcall_p(),
+                        1 => self.strq(),
+                        2 => {
+                            self.put("%unquote(");
+                            let w = self.ascii_word();
+                            self.put(w);
+                            self.put(")");
+                        }
+                        _ => {
+                            let w = self.ascii_word();
+                            self.put(w);
+                            self.mcall_p();
+                        }
+                    }
+                } else {
+                    self.name_expr();
+                }
                 let prev_end = self.pos();
                 let p1 = self.pad("before-assign", true);
                 let eq = self.pos();
